@@ -17,8 +17,23 @@ def enc2(r, a, b):
     return 2 * enc(r, a, b)
 
 
+def _negating(fn):
+    """some entries negative (cross-validated distance estimates are): every third (r + a + b) keeps its sign"""
+    def f(r, a, b):
+        v = fn(r, a, b)
+        return v if (r + min(a, b) + max(a, b)) % 3 == 0 else -v
+    return f
+
+
+_VFN = {}
+
+
 def value_fn_of(spec):
-    return enc2 if spec.get('dtype') == 'int64' else enc
+    key = (spec.get('dtype') == 'int64', bool(spec.get('neg')))
+    if key not in _VFN:
+        base = enc2 if key[0] else enc
+        _VFN[key] = _negating(base) if key[1] else base
+    return _VFN[key]
 
 
 def dec(v):
@@ -159,6 +174,8 @@ def gen_rdms_spec(rng, n_rdm=(1, 6), n_cond=(3, 9), nan_prob=0.25, groupings=Tru
         spec['pat_desc']['xyz'] = {'values': [[float(u), u + 0.5] for u in cond_uids], 'container': 'array'}
     if rng.chance(0.2):
         spec['rdm_desc']['roi_xyz'] = {'values': [[float(u), u * 2.0, 1.0] for u in rdm_uids], 'container': 'array'}
+    if dtypes and rng.chance(0.25):
+        spec['neg'] = True
     if dtypes:
         spec['dtype'] = rng.pick(['float64', 'float64', 'float64', 'int64', 'float32'])
     if rng.chance(nan_prob) and nc >= 4 and spec.get('dtype') != 'int64':
